@@ -35,6 +35,19 @@ DIRECTED = [
     ("single-leaf-shared-open-bond",
      {"tensors": [[0, [2, 3], [0, 1], "a"], [-1, [3, 3, 2], [1, 1, 0], None]], "bonds": None,
       "data": {"a": D([2, 3], [1, 2, 3, 4, 5, 6])}}),
+    # single-leaf scaffolds OUTSIDE the known defect classes: contract_tree must be right
+    ("single-leaf-in-order-2d",
+     {"tensors": [[3, [2, 3], [4, 9], "a"], [-1, [2, 3], [4, 9], None]], "bonds": None,
+      "data": {"a": D([2, 3], [1, 2, 3, 4, 5, 6])}}),
+    ("single-leaf-in-order-shared-open-bond",
+     {"tensors": [[0, [2, 3], [0, 1], "a"], [-1, [2, 2, 3, 3, 2], [0, 0, 1, 1, 0], None]], "bonds": None,
+      "data": {"a": D([2, 3], [1, 2, 3, 4, 5, 6])}}),
+    ("single-leaf-in-order-negative-ids",
+     {"tensors": [[-5, [3, 2, 2], [-2, -7, 6], "a"], [-1, [3, 2, 2, 2], [-2, -7, 6, -7], None]], "bonds": None,
+      "data": {"a": D([3, 2, 2], list(range(1, 13)))}}),
+    ("single-leaf-permuted-but-all-dimensions-one",
+     {"tensors": [[7, [1, 1], [3, 6], "a"], [-1, [1, 1, 1], [6, 3, 3], None]], "bonds": None,
+      "data": {"a": D([1, 1], [2])}}),
     ("wrapped-tensor",
      {"tensors": [[0, [2, 1, 2, 3], [0, 1, 2, 3], "a"], [-1, [2, 1, 2, 3], [0, 1, 2, 3], None]],
       "bonds": [[0, [-1, 0]], [1, [-1, 0]], [2, [-1, 0]], [3, [-1, 0]]],
@@ -70,6 +83,34 @@ INCONSISTENT = [
     ("dangling-open-leg", {"tensors": [[0, [2], [0], "t"], [-1, [2, 2], [0, 0], None]], "bonds": [[0, [0, -1]]],
                            "data": {"t": D([2], [1, 2])}}),
 ]
+
+
+SIG_LABELS = "contract_einsum:more-than-52-bonds:numpy-einsum-runs-out-of-labels"
+
+
+def leaf_root_class(stn, tid):
+    """Which of the known single-leaf-scaffold defects of contract_tree apply to the network
+    `stn` whose only scaffold leaf is `tid` - decided from the network description alone, never
+    from what the implementation returned:
+      'diag'  two legs of the tensor lie on one open bond (RuntimeError 'inconsistency when tracking'),
+      'trace' a leg of the tensor lies on a bond that is not open (assert c == tree.ndim),
+      'perm'  otherwise, when the legs are not met in leg order along the open axes (the root
+              permutation is applied to the leaf's index lists but not to its stored tensor).
+    Empty set: the open axes meet the legs in order - contract_tree must be right."""
+    t, vt = stn.tensors[tid], stn.tensors[-1]
+    cls = set()
+    if any(t.bids.count(b) >= 2 for b in set(vt.bids)):
+        cls.add("diag")
+    if any(b not in vt.bids for b in t.bids):
+        cls.add("trace")
+    if not cls:
+        first = []
+        for b in vt.bids:
+            if b in t.bids and t.bids.index(b) not in first:
+                first.append(t.bids.index(b))
+        if first != sorted(first):
+            cls.add("perm")
+    return cls
 
 
 def has_idle_bond(stn):
@@ -128,18 +169,19 @@ def probe_tree(net, ref, scaffold, rng=None):
     from qib.tensor_network.contraction_tree import perform_tree_contraction
     fails = []
     leaf_root = isinstance(scaffold, int)
+    lcls = leaf_root_class(net.net, scaffold) if leaf_root and scaffold in net.net.tensors and scaffold != -1 else set()
     try:
         cnt, amap, tree = net.contract_tree(copy.deepcopy(scaffold))
     except RuntimeError as e:
         if has_idle_bond(net.net) and "cannot track open axis" in str(e):
             return None, fails, "refused-idle-wire"
-        if leaf_root and "inconsistency when tracking open axis" in str(e):
+        if "diag" in lcls and "inconsistency when tracking open axis" in str(e):
             fails.append((SIG_LEAF_DIAG, "contracts", "RuntimeError"))
             return None, fails, "known"
         fails.append(("contract_tree:exception:RuntimeError", "contracts", repr(e)))
         return None, fails, "exception"
     except AssertionError as e:
-        if leaf_root:
+        if "trace" in lcls:
             fails.append((SIG_LEAF_TRACE, "contracts", "AssertionError"))
             return None, fails, "known"
         fails.append(("contract_tree:exception:AssertionError", "contracts", repr(e)))
@@ -159,13 +201,22 @@ def probe_tree(net, ref, scaffold, rng=None):
             good = dense.shape == ref.shape and np.array_equal(dense, ref)
     except Exception:
         good = False
-    if not good:
-        if leaf_root:
+    if lcls and not (lcls == {"perm"}):
+        # the implementation must raise on these classes (see above); returning is a new behaviour
+        fails.append(("contract_tree:single-leaf-scaffold:returns-on-trace-or-diagonal", "defining sum or the known refusal",
+                      "returned; value %s" % ("right" if good else "wrong")))
+        status = "wrong" if not good else "known-benign"
+    elif not good:
+        if lcls == {"perm"}:
             fails.append((SIG_LEAF_PERM, "defining sum", "axes not permuted"))
             status = "known"
         else:
             fails.append(("contract_tree:not-the-defining-sum", "defining sum", "differs"))
             status = "wrong"
+    elif lcls == {"perm"}:
+        # the unpermuted leaf tensor happens to equal the permuted one (dimensions 1 / symmetric data):
+        # no violation on this input, but the tree is outside the checker theorem's domain
+        status = "known-benign"
     return (tree, amap, cnt), fails, status
 
 
@@ -210,11 +261,51 @@ def probe_permute(net, tree, cnt, rng, nterm=None, amap=None):
     return terms, fails
 
 
+def chain_desc(N):
+    """N matrices [[1,1],[0,1]] in a row: N+1 bonds, value [[1,N],[0,1]]"""
+    return {"tensors": [[i, [2, 2], [i, i + 1], "m"] for i in range(N)] + [[-1, [2, 2], [0, N], None]],
+            "bonds": None, "data": {"m": D([2, 2], [1, 1, 0, 1])}}
+
+
+def probe_label_limit(N):
+    """numpy.einsum has 52 index letters: as_einsum needs one label per bond.  The model's einsum
+    is the mathematical sum (no limit), so this bound of the implementation is probed here."""
+    from qib.tensor_network.tensor_network import to_full_tensor
+    net = tn.build(chain_desc(N))
+    want = np.array([[1, N], [0, 1]], dtype=float)
+    fails = []
+    if not net.is_consistent():
+        fails.append(("generator:initial-network-not-consistent", True, False))
+        return fails
+    try:
+        cnt, amap = net.contract_einsum()
+        if not np.array_equal(to_full_tensor(np.asarray(cnt), amap), want):
+            fails.append(("contract_einsum:not-the-defining-sum", want.tolist(), "differs"))
+    except Exception as e:
+        if len(net.net.bonds) > 52:
+            fails.append((SIG_LABELS, "contracts", repr(e)))
+        else:
+            fails.append(("contract_einsum:exception:" + type(e).__name__, "contracts", repr(e)))
+    sc = 0
+    for i in range(1, N):
+        sc = [sc, i]
+    try:
+        cnt, amap, _ = net.contract_tree(sc)
+        if not np.array_equal(to_full_tensor(np.asarray(cnt), [int(a) for a in amap]), want):
+            fails.append(("contract_tree:not-the-defining-sum", want.tolist(), "differs"))
+    except Exception as e:
+        fails.append(("contract_tree:exception:" + type(e).__name__, "contracts", repr(e)))
+    return fails
+
+
 def run(ctx):
     ctx.trusted.append("C07: get_bond_axes, as_einsum, contract_einsum, to_full_tensor, _build_contraction_tree, contract_tree "
                        "(axis tracking, root permutation), permute_axes, perform_tree_contraction are hand-modelled (Qib.TN.TNValue, "
                        "TNTree) and tied by exact correspondence (index lists per tree node, axes maps, integer values); "
                        "numpy.einsum is modelled by its defining sum (einsum_sem), np.argsort of a permutation by the inverse permutation")
+    ctx.assumes.append("numpy.einsum is modelled by its defining sum for ANY number of labels and operands; the real numpy.einsum "
+                       "(optimize=True) has 52 index letters, so contract_einsum raises on networks with more than 52 bonds "
+                       "(KNOWN FINDING, probed on every run); C07_einsum_answers is a statement about the model")
     ctx.assumes.append("model = /repo (incl. its commit f430c25 'contract_einsum looked up an einsum label in a list of positions') with proposed_fixes/C07-is-consistent-leg-count.diff; "
                        "tensor data are ring elements (exact arithmetic); the tree path is proved through a verified checker (check_root_sound) executed in Coq on "
                        "every tree of the run (the universal theorem about the builder is not proved)")
@@ -289,7 +380,7 @@ def run(ctx):
             add("CTree %s %s %s (Some %s) %s" % (
                 nterm, dterm, tn.scaffold_term(sc), ct.pair(tn.tree_term(tree), tn.nl(amap), tn.dense_term(cnt)),
                 "(Some %s)" % tn.dense_term(ref) if status == "ok" else "None"), dict(tinp, kind="tree"))
-            if status in ("known", "wrong"):
+            if status in ("known", "wrong", "known-benign"):
                 # the verified checker must refuse a tree whose value is not the defining sum
                 add("CChk %s %s %s false" % (nterm, tn.tree_term(tree), tn.nl(amap)), dict(tinp, kind="checker-rejects"))
                 ctx.count("checker_rejects_wrong_tree")
@@ -306,6 +397,11 @@ def run(ctx):
                     for term in terms:
                         add(term, dict(tinp, kind="permute"))
     ctx.count("trees", ntrees)
+    # ---------------- the label limit of numpy.einsum (outside the model: einsum_sem has no limit)
+    for N in (51, 52):
+        for sig, e, g in probe_label_limit(N):
+            ctx.fail(sig, {"kind": "label-limit", "chain": N}, e, g)
+        ctx.count("label_limit_probe_bonds=%d" % (N + 1))
     # ---------------- consistency check: negatives
     for name, desc in INCONSISTENT:
         inp = {"net": desc, "kind": "inconsistent:" + name}
@@ -330,6 +426,11 @@ def run(ctx):
 
 def replay(ctx, data):
     inp, sig = data["input"], data["sig"]
+    if inp.get("kind") == "label-limit":
+        for s, e, g in probe_label_limit(int(inp["chain"])):
+            if s == sig:
+                ctx.fail(sig, inp, e, g)
+        return
     if str(inp.get("kind", "")).startswith("inconsistent"):
         stn = tn.build_symbolic(inp["net"])
         cons = safe(lambda: bool(stn.is_consistent()), False)
